@@ -73,7 +73,18 @@ func c12Concurrent(r *vcore.Run) (execs, points int64, complete bool, notes []ma
 		)
 	}
 	for _, c := range cases {
-		c := c
+		st := c12ConcExplore(r, c)
+		execs += st.Executions
+		points += st.Points
+		complete = complete && st.Complete
+		notes = append(notes, map[string]any{"wrapper": c.Wrapper, "threads": len(c.Threads), "schedules": st.Executions, "complete": st.Complete})
+	}
+	return
+}
+
+// c12ConcExplore explores every schedule of one overlap case.
+func c12ConcExplore(r *vcore.Run, c c12ConcCase) vsched.Stats {
+	{
 		var backend *recBackend
 		var outs []string
 		ex := vsched.Explorer{Bound: -1, Deadline: 3 * time.Minute, MaxExec: 300000}
@@ -96,18 +107,20 @@ func c12Concurrent(r *vcore.Run) (execs, points int64, complete bool, notes []ma
 			}
 			return true
 		})
-		execs += st.Executions
-		points += st.Points
-		complete = complete && st.Complete
-		notes = append(notes, map[string]any{"wrapper": c.Wrapper, "threads": len(c.Threads), "schedules": st.Executions, "complete": st.Complete})
+		return st
 	}
-	return
 }
 
 func c12ConcReplay(r *vcore.Run, c c12ConcCase) {
 	backend := newRecBackend()
 	var outs []string
 	res := vsched.Run(c.Schedule, false, c12ConcBody(c, backend, &outs))
+	if res.Failed == 3 {
+		fmt.Println("replay: the recorded schedule does not apply to this tree (" + res.FailMsg + "); exploring every schedule of the case instead")
+		c.Schedule = nil
+		c12ConcExplore(r, c)
+		return
+	}
 	if res.Failed != 0 {
 		r.Violate("sched", "C12/concurrent/failed", c, "runs to completion", res.FailMsg)
 		return
